@@ -525,10 +525,31 @@ func (v *Validator) typeOfComparison(env *requestEnv, left, right ast.IsNode, ca
 		errs = append(errs, rightExpectErr)
 	}
 
+	if len(errs) == 0 && lt != nil && rt != nil && !sameComparableKind(lt, rt) {
+		// each side is comparable on its own, but `<` is only defined between two longs,
+		// two datetimes or two durations: Long < datetime fails at run time
+		errs = append(errs, typeIncompatErr(lt, rt))
+	}
 	if len(errs) > 0 {
 		return typeBool{}, caps, errors.Join(errs...)
 	}
 	return typeBool{}, caps, nil
+}
+
+// sameComparableKind reports whether two comparable operand types can be compared with
+// each other (both Long, or the same extension type).
+func sameComparableKind(a, b cedarType) bool {
+	_, aLong := a.(typeLong)
+	_, bLong := b.(typeLong)
+	if aLong || bLong {
+		return aLong && bLong
+	}
+	ae, aExt := a.(typeExtension)
+	be, bExt := b.(typeExtension)
+	if aExt && bExt {
+		return ae.name == be.name
+	}
+	return true
 }
 
 func (v *Validator) typeOfArith(env *requestEnv, left, right ast.IsNode, caps capabilitySet) (cedarType, capabilitySet, error) {
